@@ -468,6 +468,9 @@ def rule_multi_leader(ctx: Ctx) -> None:
     r = [(s, {k[:3] for k in vf.facts_at(node_of(vf.cfg, s))}) for s in walk_stmts(vm.node.body) if isinstance(s, ast.Return) and path_of(s.value) in ("a", "b")]
     ok = len(r) == 2 and all(("truthy", f"_vc_dominates(vc_{path_of(s.value)}, vc_{'b' if path_of(s.value) == 'a' else 'a'})", "") in fs for s, fs in r)
     ctx.ob("C17-4", "G3", vm, r[0][0] if r else None, ok, "VectorClockMerge returns the causally dominating version when there is one")
+    other = [s2 for s2 in walk_stmts(vm.node.body) if isinstance(s2, ast.Return) and path_of(s2.value) not in ("a", "b")]
+    okf = len(other) == 2 and any(unparse(s2.value).replace(" ", "") == "self._merge_fn(key,a,b)" for s2 in other) and any(unparse(s2.value).replace(" ", "") == "LastWriterWins().resolve(key,[a,b])" for s2 in other)
+    ctx.ob("C17-4", "G3", vm, other[-1] if other else None, okf, "for concurrent versions VectorClockMerge uses the merge function or falls back to LastWriterWins — the same total order (timestamp, writer) at every replica, whichever version it holds locally")
     # local write: version stamped with a fresh clock tick and the same stamp is replicated
     w = prog.func(ML, "LeaderNode._handle_write")
     snap = stmts_matching(w, "vc_snapshot = self._vclock.send()")
@@ -529,6 +532,7 @@ def run(ctx: Ctx) -> None:
 
 
 MUTANTS = [
+    ("vcmerge-fallback-local-wins-ties", CR, "        return LastWriterWins().resolve(key, [a, b])", "        return b if a.timestamp < b.timestamp else a", "C17-4"),
     ("sync-waits-for-any", PB, "            if len(ack_futures) >= 2:\n                yield all_of(*ack_futures)", "            if len(ack_futures) >= 2:\n                from happysimulator.core.sim_future import any_of\n\n                yield any_of(*ack_futures)", "C17-1"),
     ("sync-single-backup-no-wait", PB, "                yield all_of(*ack_futures)\n            elif ack_futures:\n                yield ack_futures[0]\n", "                yield all_of(*ack_futures)\n", "C17-1"),
     ("semi-sync-no-wait", PB, "                _idx, _val = yield any_of(*ack_futures)\n            elif ack_futures:\n                yield ack_futures[0]\n", "                pass\n", "C17-1"),
